@@ -40,3 +40,26 @@ pub fn opt(x: Option<String>) -> String {
 pub fn pair(a: &str, b: &str) -> String {
     format!("({}, {})", a, b)
 }
+
+/// Interns long byte strings as top-level Coq definitions (`hx17`) so that case files stay
+/// small: Coq's string-literal parsing is the bottleneck of the correspondence check.
+#[derive(Default)]
+pub struct Interner {
+    map: std::collections::HashMap<Vec<u8>, usize>,
+    pub defs: Vec<String>,
+}
+
+impl Interner {
+    pub fn hex(&mut self, bytes: &[u8]) -> String {
+        if bytes.len() < 8 {
+            return hex(bytes);
+        }
+        if let Some(i) = self.map.get(bytes) {
+            return format!("hx{}", i);
+        }
+        let i = self.defs.len();
+        self.map.insert(bytes.to_vec(), i);
+        self.defs.push(format!("Definition hx{} := {}.", i, hex(bytes)));
+        format!("hx{}", i)
+    }
+}
